@@ -1,0 +1,47 @@
+//go:build verif
+
+package priority
+
+import (
+	"github.com/akramarenkov/cqos/v2/internal/general"
+	"github.com/akramarenkov/cqos/v2/priority/divider"
+	"github.com/akramarenkov/cqos/v2/priority/internal/common"
+)
+
+// Verification hooks (build tag verif): expose unexported pure helpers.
+
+func VerifSortPriorities(priorities []uint) { common.SortPriorities(priorities) }
+
+func VerifSumPriorities(priorities []uint) uint { return common.SumPriorities(priorities) }
+
+func VerifDivideWithMin(base uint, divider uint, min uint) uint {
+	return general.DivideWithMin(base, divider, min)
+}
+
+func VerifSafeDivide(
+	divider divider.Divider,
+	priorities []uint,
+	dividend uint,
+	distribution map[uint]uint,
+) error {
+	return safeDivide(divider, priorities, dividend, distribution)
+}
+
+// Runs the real prepare() for the given priorities (channels are irrelevant to it).
+func VerifPrepare(divider divider.Divider, keys []uint, quantity uint) ([]uint, map[uint]uint, error) {
+	inputs := make(map[uint]<-chan int, len(keys))
+
+	for _, key := range keys {
+		inputs[key] = make(chan int)
+	}
+
+	opts := Opts[int]{
+		Divider:          divider,
+		HandlersQuantity: quantity,
+		Inputs:           inputs,
+	}
+
+	_, priorities, strategic, err := prepare(opts)
+
+	return priorities, strategic, err
+}
